@@ -222,11 +222,16 @@ def t_kzip(A, B, F, P):
     return A.map(F.f(1, P[0])).key_zip(A.map(F.f(2, P[1])))
 
 
+def r_kzip(a, b, F, P):
+    f, f2 = F.f(1, P[0]), F.f(2, P[1])
+    return zip((f(x) for x in a), (f2(x) for x in a))
+
+
 TEMPLATES = {
     'map_map': (t_map_map, r_map_map, 'list'), 'map_filter_map': (t_map_filter_map, r_map_filter_map, 'list'), 'map_batch_map': (t_map_batch_map, r_map_batch_map, 'list'),
     'batch_unbatch': (t_batch_unbatch, r_batch_unbatch, 'list'), 'slice': (t_slice, r_slice, 'list'), 'rev': (t_rev, r_rev, 'dict'), 'concat': (t_concat, r_concat, 'list'),
     'zip': (t_zip, r_zip, 'list'), 'items': (t_items, r_items, 'dict'), 'catch': (t_catch, r_map_map, 'list'), 'cache': (t_cache, r_map_map, 'list'), 'copy': (t_copy, r_map_map, 'dict'),
-    'pf1': (t_pf1, r_map_map, 'list'), 'filter_batch': (t_filter_batch, r_filter_batch, 'list'), 'isp': (t_isp, r_isp, 'list'), 'kzip': (t_kzip, r_zip, 'dict'),
+    'pf1': (t_pf1, r_map_map, 'list'), 'filter_batch': (t_filter_batch, r_filter_batch, 'list'), 'isp': (t_isp, r_isp, 'list'), 'kzip': (t_kzip, r_kzip, 'dict'),
 }
 
 
@@ -382,6 +387,6 @@ FAMILIES = [
     Family('second_pass', body_second_pass, ['n'], XP[:4] + CP[:2], lambda tier, seed: [(n,) for n in range(0, 4)], timeout=60, desc='cache: nothing upstream runs twice'),
     Family('pointwise', body_pointwise, ['name', 'n', 'j'], XP + CP + [('i', 'int')],
            lambda tier, seed: [(nm, n, j) for nm in ('map', 'batch', 'concat', 'slice', 'zip', 'cache', 'key_map', 'key_concat', 'key_kzip') for n in range(0, 4)
-                               for j in ((0, 1, 2) if nm.startswith('key_') else (0,))], timeout=60,
+                               for j in ((0, 1, 2) if nm.startswith('key_') else (0,)) if not (n == 0 and nm in ('map', 'batch', 'slice', 'zip', 'cache'))], timeout=60,
            desc='ds[i] / ds[key] applies user functions only to the examples of that result'),
 ]
